@@ -266,7 +266,8 @@ func (*DefaultKeyFileClassifier) ClassifyExportedKey(path string) *ExportedKey {
 
 	// Poison key is in ".poison_key" subdirectory, we can't look at filename alone.
 	if strings.HasSuffix(path, "/"+getSymmetricKeyName(PoisonKeyFilename)) {
-		keyContext := keystore.NewKeyContext(keystore.PurposePoisonRecordSymmetricKey, []byte(PoisonKeyFilename))
+		// same context as KeyStore.GeneratePoisonSymmetricKey/GetPoisonSymmetricKey: the full key name
+		keyContext := keystore.NewKeyContext(keystore.PurposePoisonRecordSymmetricKey, []byte(getSymmetricKeyName(PoisonKeyFilename)))
 		return NewExportedSymmetricKey(path, keyContext)
 	}
 
